@@ -189,6 +189,7 @@ func runScenario(sc *Scenario, replay []simrt.Decision, record bool) *outcome {
 		Record:   record,
 		Classify: classifier,
 		OnStep:   w.onStep,
+		HB:       true,
 		SharedPkg: func(pkg string) bool {
 			if pkg == "util" {
 				return true
@@ -261,7 +262,16 @@ func (w *world) finish(res simrt.Result) {
 		}
 	}
 	for _, r := range sim.Races {
-		w.violate("race", "data-race", simrt.SiteName(r.SiteB), r.String())
+		a, b := siteInfo(r.SiteA), siteInfo(r.SiteB)
+		if carriesFrames(a.Type) && carriesFrames(b.Type) {
+			fa, fb := a.Func, b.Func
+			if fb < fa {
+				fa, fb = fb, fa
+			}
+			w.violate("race", "data-race-on-frame-buffer", fa+" / "+fb, fmt.Sprintf("unsynchronised accesses to the same pool buffer: %s in %s (task %d) and %s in %s (task %d) are not ordered by happens-before (%s)", a.Type, a.Func, r.TaskA, b.Type, b.Func, r.TaskB, r.Kind))
+		} else {
+			w.probes.Add("race_on_other_object", 1)
+		}
 	}
 	w.checkWire(quiescent)
 
@@ -372,4 +382,16 @@ func (w *world) nontrivial() bool {
 		return w.decoderPastHeader
 	}
 	return len(sc.Frames) >= 2 && (w.splitFrame || w.readerSwitchInFull)
+}
+
+func siteInfo(id int32) simrt.SiteInfo {
+	if id >= 0 && int(id) < len(simrt.Sites) {
+		return simrt.Sites[id]
+	}
+	return simrt.SiteInfo{Name: "harness", Func: "harness"}
+}
+
+// carriesFrames: objects whose contents are frame bytes on their way to the consumer.
+func carriesFrames(typ string) bool {
+	return strings.HasPrefix(typ, "bytes.Buffer.") || strings.HasPrefix(typ, "util.Buffer.")
 }
